@@ -352,9 +352,13 @@ var c05Kinds = []entrySpec{
 	{files.TypeSymlink, "target"},
 	{files.TypeTree, "src/d"},
 	{files.TypeRPMGhost, ""},
+	// a source directory that is a symbolic link, written with and without the slash that makes the OS follow it
+	{files.TypeTree, "src/lnkdir/"},
 }
 
 var c05KindsMore = []entrySpec{
+	{files.TypeTree, "src/lnkdir"},
+	{"", "src/lnkdir/"},
 	{files.TypeConfigNoReplace, "src/f2"},
 	{files.TypeConfigMissingOK, "src/g[1].txt"},
 	{files.TypeRPMDoc, "src/f1"},
